@@ -1,4 +1,5 @@
 From Coq Require Import Extraction ExtrOcamlBasic ZArith List.
-From MV Require Import Topo.CheckMeshDefs.
+From MV Require Import Topo.CheckMeshDefs Topo.PipelineDefs Topo.HalfedgeDefs Gen.Pipelines.
 Extraction Language OCaml.
-Extraction "../build/ml/c01_model.ml" check_mesh check_counts.
+Extraction "../build/ml/c01_model.ml" check_mesh check_counts pipeline_verdicts pipeline_ok
+  create_halfedges is_manifold gate_case balanced halfedge_inv.
